@@ -235,6 +235,15 @@ def explore(nclients, kinds, check, shard_idx=0, nshards=1):
     order = {init: 0}
     fr = deque([init])
     stats = dict(states=0, transitions=0, violations=[], sends=0, deliveries=0, nondeliveries=0)
+    sigcount = {}
+
+    def keep(fails, path):
+        # store the first (shortest: BFS order) witness per signature, count the rest
+        new = [f for f in fails if (f[0], f[1]) not in sigcount]
+        for f in fails:
+            sigcount[(f[0], f[1])] = sigcount.get((f[0], f[1]), 0) + 1
+        if new:
+            stats["violations"].append((new, path))
 
     def path_of(st):
         p = []
@@ -266,7 +275,7 @@ def explore(nclients, kinds, check, shard_idx=0, nshards=1):
                     fails = fails + [("send-changed-router-state", "kind=%s" % ev[1], "router state changed by a send: %r" % (ev,))]
                     sysm, _ = build(path, nclients)
                 if fails:
-                    stats["violations"].append((fails, path + [ev]))
+                    keep(fails, path + [ev])
         for ev in structural_events(model, nclients):
             s2, m2 = build(path, nclients)
             mm = m2
@@ -284,13 +293,14 @@ def explore(nclients, kinds, check, shard_idx=0, nshards=1):
                 fails = [("policy-state", "op=%s" % ev[0], "router blob_routing %r, model %r" % (c[2], polwant))]
             if fails:
                 if mine:
-                    stats["violations"].append((fails, path + [ev]))
+                    keep(fails, path + [ev])
                 continue
             if c not in parent:
                 parent[c] = (st, ev)
                 order[c] = len(order)
                 fr.append(c)
     stats["states"] = len(parent)
+    stats["sigcount"] = sigcount
     return stats
 
 
